@@ -105,12 +105,18 @@ def subnetLoop (n : Net) (q count : Nat) (i : Nat) (acc : List Net) : R (List Ne
 termination_by count - i
 
 /-- `list(itertools.islice(n.subnet(prefixlen, count), limit))`: the generator run for at most
-    `limit` items (what the driver and the harness can afford for huge counts) -/
+    `limit` items (what the driver and the harness can afford for huge counts).
+    `subnet` is a generator function (ip/__init__.py:1295-1334): NOTHING of its body runs before
+    the first `next()`, not even the argument checks, and `islice(gen, 0)` never calls `next()` —
+    so with `limit = 0` the answer is `[]` whatever the arguments (audit 2b finding 2; the
+    checks used to be evaluated at limit 0 too). -/
 def subnetTake (n : Net) (q : Int) (count : Option Int) (limit : Nat) : R (List Net) :=
-  match subnetCount n q count with
-  | .error e => .error e
-  | .ok none => .ok []
-  | .ok (some c) => subnetLoop n q.toNat (min c limit) 0 []
+  if limit = 0 then .ok []
+  else
+    match subnetCount n q count with
+    | .error e => .error e
+    | .ok none => .ok []
+    | .ok (some c) => subnetLoop n q.toNat (min c limit) 0 []
 
 /-- `list(n.subnet(prefixlen, count))` -/
 def subnet (n : Net) (q : Int) (count : Option Int) : R (List Net) :=
